@@ -621,6 +621,82 @@ impl Database {
         Ok(ExecuteResult::CreateIndex { created: true })
     }
 
+    /// Removes every entry of one table file (a table or its TOAST companion). With the WAL on
+    /// the page changes go through the dirty tracker and are logged like those of any other
+    /// autocommit statement; otherwise a later WAL replay would bring the rows back.
+    /// Returns the number of live (not tombstoned) rows removed.
+    fn truncate_table_file(
+        &self,
+        file_manager: &mut crate::storage::FileManager,
+        schema_name: &str,
+        table_name: &str,
+        restart_identity: bool,
+    ) -> Result<usize> {
+        use crate::btree::BTree;
+        use crate::database::macros::with_btree_storage;
+
+        let wal_enabled = self
+            .shared
+            .wal_enabled
+            .load(std::sync::atomic::Ordering::Acquire);
+        if wal_enabled {
+            self.ensure_wal()?;
+        }
+
+        let storage_arc = file_manager.table_data_mut(schema_name, table_name)?;
+        let mut storage = storage_arc.write();
+
+        let (table_id, root_page) = {
+            let page = storage.page(0)?;
+            let header = TableFileHeader::from_bytes(page)?;
+            (header.table_id() as u32, header.root_page())
+        };
+
+        let mut keys_to_delete: Vec<Vec<u8>> = Vec::new();
+        let mut rows_affected: usize = 0;
+        {
+            let btree = BTree::new(&mut *storage, root_page)?;
+            let mut cursor = btree.cursor_first()?;
+            while cursor.valid() {
+                keys_to_delete.push(cursor.key()?.to_vec());
+                if !crate::database::dml::mvcc_helpers::is_tombstone(cursor.value()?) {
+                    rows_affected += 1;
+                }
+                cursor.advance()?;
+            }
+        }
+
+        with_btree_storage!(
+            wal_enabled,
+            &mut *storage,
+            &self.shared.dirty_tracker,
+            table_id,
+            root_page,
+            |btree_mut: &mut BTree<_>| {
+                for key in &keys_to_delete {
+                    btree_mut.delete(key)?;
+                }
+                Ok::<_, eyre::Report>(())
+            }
+        );
+
+        {
+            let page = storage.page_mut(0)?;
+            let header = TableFileHeader::from_bytes_mut(page)?;
+            header.set_row_count(0);
+            if restart_identity {
+                header.set_auto_increment(0);
+            }
+        }
+
+        storage.sync()?;
+        drop(storage);
+
+        self.flush_wal_if_autocommit(file_manager, schema_name, table_name, table_id)?;
+
+        Ok(rows_affected)
+    }
+
     pub(crate) fn execute_truncate(
         &self,
         truncate: &crate::sql::ast::TruncateStmt<'_>,
@@ -650,43 +726,25 @@ impl Database {
         for (schema_name, table_name) in &tables_info {
             let mut file_manager_guard = self.shared.file_manager.write();
             let file_manager = file_manager_guard.as_mut().unwrap();
-            let storage_arc = file_manager.table_data_mut(schema_name, table_name)?;
-            let mut storage = storage_arc.write();
 
-            let root_page = {
-                let page = storage.page(0)?;
-                TableFileHeader::from_bytes(page)?.root_page()
-            };
-            let btree = BTree::new(&mut *storage, root_page)?;
-            let mut cursor = btree.cursor_first()?;
-
-            let mut keys_to_delete: Vec<Vec<u8>> = Vec::new();
-            let mut rows_affected: usize = 0;
-            while cursor.valid() {
-                keys_to_delete.push(cursor.key()?.to_vec());
-                if !crate::database::dml::mvcc_helpers::is_tombstone(cursor.value()?) {
-                    rows_affected += 1;
-                }
-                cursor.advance()?;
-            }
-
+            let rows_affected = self.truncate_table_file(
+                file_manager,
+                schema_name,
+                table_name,
+                truncate.restart_identity,
+            )?;
             total_rows_affected += rows_affected;
 
-            let mut btree_mut = BTree::new(&mut *storage, root_page)?;
-            for key in &keys_to_delete {
-                btree_mut.delete(key)?;
+            let has_toast = {
+                let catalog_guard = self.shared.catalog.read();
+                let catalog = catalog_guard.as_ref().unwrap();
+                catalog.resolve_table(table_name)?.has_toast()
+            };
+            if has_toast {
+                // the out-of-line chunks of the removed rows go with them
+                let toast_table_name = crate::storage::toast::toast_table_name(table_name);
+                self.truncate_table_file(file_manager, schema_name, &toast_table_name, false)?;
             }
-
-            let page = storage.page_mut(0)?;
-            let header = TableFileHeader::from_bytes_mut(page)?;
-
-            header.set_row_count(0);
-
-            if truncate.restart_identity {
-                header.set_auto_increment(0);
-            }
-
-            storage.sync()?;
 
             let catalog_guard = self.shared.catalog.read();
             let catalog = catalog_guard.as_ref().unwrap();
@@ -703,6 +761,10 @@ impl Database {
                     let index_storage_arc =
                         file_manager.index_data_mut(schema_name, table_name, &index_name)?;
                     let mut index_storage = index_storage_arc.write();
+                    let root_page = {
+                        let page = index_storage.page(0)?;
+                        crate::storage::IndexFileHeader::from_bytes(page)?.root_page()
+                    };
                     let index_btree = BTree::new(&mut *index_storage, root_page)?;
                     let mut index_cursor = index_btree.cursor_first()?;
 
